@@ -332,13 +332,20 @@ func runC17(c *Ctx) {
 		cc, ok := stripConv(bo.X).(*ssa.Call)
 		return ok && calleeObj(cc) != nil && calleeObj(cc).Name() == "GetNonce"
 	}
+	// the bump itself, or the call of a helper (no other caller) that contains it
+	bumpSites := func(fn *ssa.Function) []ssa.Instruction {
+		return sitesVia(w, fn, func(in ssa.Instruction) bool {
+			ci, ok := in.(ssa.CallInstruction)
+			return ok && isNonceBump(ci)
+		})
+	}
 	tdb := w.Fn("core", "StateTransition", "TransitionDb")
 	c.sawFunc(fname(tdb))
 	for _, ci := range callInstrs(tdb) {
 		if o := calleeObj(ci); o != nil && o.Name() == "Call" && recvName(o) == "EVM" {
 			ok := false
-			for _, cj := range callInstrs(tdb) {
-				if isNonceBump(cj) && instrDominates(cj, ci) {
+			for _, cj := range bumpSites(tdb) {
+				if instrDominates(cj, ci) {
 					ok = true
 				}
 			}
@@ -349,8 +356,8 @@ func runC17(c *Ctx) {
 	crt := w.Fn("core/vm", "EVM", "create")
 	okc := false
 	for _, ci := range callsTo(crt, w.FuncObj("core/vm", "", "run")) {
-		for _, cj := range callInstrs(crt) {
-			if isNonceBump(cj) && instrDominates(cj, ci) {
+		for _, cj := range bumpSites(crt) {
+			if instrDominates(cj, ci) {
 				okc = true
 			}
 		}
@@ -366,8 +373,8 @@ func runC17(c *Ctx) {
 		}
 		if cc, ok := ci.Common().Value.(*ssa.Call); ok && sameFunc(calleeObj(cc), gh) {
 			ok2 := false
-			for _, cj := range callInstrs(sam) {
-				if isNonceBump(cj) && instrDominates(cj, ci) {
+			for _, cj := range bumpSites(sam) {
+				if instrDominates(cj, ci) {
 					ok2 = true
 				}
 			}
@@ -377,10 +384,7 @@ func runC17(c *Ctx) {
 	}
 	// the raised nonce survives a failed execution: the bump is not inside a snapshot that the same function reverts
 	for _, fn := range []*ssa.Function{tdb, crt, sam} {
-		for _, bump := range callInstrs(fn) {
-			if !isNonceBump(bump) {
-				continue
-			}
+		for _, bump := range bumpSites(fn) {
 			c.sites++
 			bad := ""
 			for _, sn := range callInstrs(fn) {
@@ -437,7 +441,18 @@ func runC17(c *Ctx) {
 		for _, ci := range callInstrs(fn) {
 			if o := calleeObj(ci); o != nil && o.Name() == "SetNonce" && recvName(o) != "" {
 				n := outerName(fname(fn))
-				ok := n == "(core.StateTransition).TransitionDb" || n == "(staking.TxConverter).ApplyMessage" || n == "(core.Genesis).ToBlock"
+				tabled := func(n string) bool {
+					return n == "(core.StateTransition).TransitionDb" || n == "(staking.TxConverter).ApplyMessage" || n == "(core.Genesis).ToBlock"
+				}
+				ok := tabled(n)
+				if !ok && splitOffHelper(w, fn) {
+					// a part of a tabled writer split off into a helper with no other caller
+					for _, caller := range w.Callers(fn) {
+						if tabled(outerName(fname(caller.Parent()))) {
+							ok = true
+						}
+					}
+				}
 				c.Check(n+"#SetNonce", ci.Pos(), ok, ifelse(ok, "tabled nonce writer", "a new function writes account nonces during transaction application"))
 			}
 		}
